@@ -15,13 +15,14 @@ git reset -q
 git diff > $WT/.applied.diff
 PKG=$(grep -m1 '^package ' $M/demo_test.go | awk '{print $2}')
 case $PKG in manager) D=internal/index/manager;; builder) D=internal/index/builder;; index) D=internal/index;; converters) D=internal/index/converters;; query) D=internal/query;; main) D=cmd/pkappa2; mkdir -p web/dist; echo '<html></html>' > web/dist/index.html;; *) D=internal/index/$PKG;; esac
+RACE=""; case " $* " in *" C20 "*) RACE=-race;; esac
 TESTS=$(grep -o '^func Test[A-Za-z0-9_]*' $M/demo_test.go | awk '{print $2}' | paste -sd'|')
 BUILD=ok; $VERIF_GO build ./internal/... >/dev/null 2>&1 || BUILD=FAIL
 SUITE=ok; $VERIF_GO test -vet=off -count=1 ./internal/... >/tmp/mutsuite.$$ 2>&1 || SUITE=FAIL
 cp $M/demo_test.go $D/zz_demo_mut_test.go
-DEMO_WITH=pass; $VERIF_GO test -vet=off -count=1 -run "^($TESTS)\$" ./$D/ >/tmp/mutdemo1.$$ 2>&1 || DEMO_WITH=fail
+DEMO_WITH=pass; $VERIF_GO test $RACE -vet=off -count=1 -run "^($TESTS)\$" ./$D/ >/tmp/mutdemo1.$$ 2>&1 || DEMO_WITH=fail
 git apply -R $WT/.applied.diff
-DEMO_WITHOUT=pass; $VERIF_GO test -vet=off -count=1 -run "^($TESTS)\$" ./$D/ >/tmp/mutdemo2.$$ 2>&1 || DEMO_WITHOUT=fail
+DEMO_WITHOUT=pass; $VERIF_GO test $RACE -vet=off -count=1 -run "^($TESTS)\$" ./$D/ >/tmp/mutdemo2.$$ 2>&1 || DEMO_WITHOUT=fail
 rm -f $D/zz_demo_mut_test.go
 git apply $WT/.applied.diff
 OUT="RESULT $M build=$BUILD suite=$SUITE demo_with=$DEMO_WITH demo_without=$DEMO_WITHOUT"
